@@ -9,6 +9,7 @@ import (
 	"path/filepath"
 	"strings"
 	"sync"
+	"syscall"
 	"time"
 
 	. "verifharness/lib"
@@ -247,6 +248,7 @@ func experiment(c *Ctx, dir string, sc scenario, cs *crashSpec, tag string) (*ob
 			time.Sleep(40 * time.Millisecond)
 		}
 	}
+	var held []int // runner processes stopped with SIGSTOP
 	runnerDiedAtHook := func() bool {
 		for _, h := range readCrashLog(e.crashLog) {
 			if h.Pid != daemonPid && h.Name == cs.Point && h.N == cs.Hit {
@@ -284,7 +286,27 @@ func experiment(c *Ctx, dir string, sc scenario, cs *crashSpec, tag string) (*ob
 		if a.Alive() {
 			a.Kill()
 		}
+		if cs.Pause && o.Reached && o.Unit != "" {
+			held = procsMentioning("unitdir=" + a.UnitDir(o.Unit))
+			for _, pid := range held {
+				_ = syscall.Kill(pid, syscall.SIGSTOP)
+			}
+			o.HeldState = -1
+			if b, err := os.ReadFile(filepath.Join(a.UnitDir(o.Unit), "status")); err == nil {
+				var st map[string]interface{}
+				if json.Unmarshal(b, &st) == nil {
+					o.HeldState = viewOf(st).State
+				}
+			}
+		}
 	}
+	release := func() {
+		for _, pid := range held {
+			_ = syscall.Kill(pid, syscall.SIGCONT)
+		}
+		held = nil
+	}
+	defer release()
 	if o.Unit == "" {
 		o.Unit = theOnlyUnit(a) // never acknowledged: nothing is owed, but the restart must cope
 	}
@@ -307,9 +329,11 @@ func experiment(c *Ctx, dir string, sc scenario, cs *crashSpec, tag string) (*ob
 	// the interval during which the node is down: at least 600 ms, and while a runner is alive
 	// until its record shows the command's first write (so that what the new daemon finds does
 	// not depend on the runner's start-up time)
-	time.Sleep(600 * time.Millisecond)
+	if len(held) == 0 {
+		time.Sleep(600 * time.Millisecond)
+	}
 	if unitDir != "" {
-		for t0 := time.Now(); time.Since(t0) < 4*time.Second && runnerAlive(unitDir); time.Sleep(50 * time.Millisecond) {
+		for t0 := time.Now(); len(held) == 0 && time.Since(t0) < 4*time.Second && runnerAlive(unitDir); time.Sleep(50 * time.Millisecond) {
 			b, _ := os.ReadFile(filepath.Join(unitDir, "status"))
 			var st map[string]interface{}
 			if json.Unmarshal(b, &st) == nil {
@@ -334,6 +358,25 @@ func experiment(c *Ctx, dir string, sc scenario, cs *crashSpec, tag string) (*ob
 		}
 	}
 	a.Env = []string{"VERIF_CRASH_LOG=" + e.crashLog + ".2"}
+	if len(held) > 0 {
+		// let the runner go on the moment the new daemon has marked the unit (its monitor starts
+		// right after), at the latest when the daemon is up
+		relDone := make(chan struct{})
+		defer func() { <-relDone }()
+		go func() {
+			defer close(relDone)
+			for t0 := time.Now(); time.Since(t0) < 30*time.Second; time.Sleep(3 * time.Millisecond) {
+				b, _ := os.ReadFile(filepath.Join(unitDir, "status"))
+				if bytes.Contains(b, []byte("Pending at restart")) || bytes.Contains(b, []byte("Failed to restart")) {
+					break
+				}
+				if strings.Contains(a.Log(), "Initialization complete") && time.Since(t0) > 300*time.Millisecond {
+					break
+				}
+			}
+			release()
+		}()
+	}
 	if err := startReady(a); err != nil {
 		o.AtRestart = view{State: -1, Err: "daemon does not come back: " + err.Error()}
 		return o, nil, daemonPid, nil
@@ -365,6 +408,24 @@ func experiment(c *Ctx, dir string, sc scenario, cs *crashSpec, tag string) (*ob
 			break
 		}
 		time.Sleep(100 * time.Millisecond)
+	}
+	// what is on disk once nothing writes any more, against what the daemon answers
+	for try := 0; try < 4 && unitDir != "" && !runnerAlive(unitDir); try++ {
+		b, err := os.ReadFile(filepath.Join(unitDir, "status"))
+		var st map[string]interface{}
+		if err != nil || json.Unmarshal(b, &st) != nil {
+			break
+		}
+		v := viewOf(st)
+		o.Disk = &v
+		if fi, err := os.Stat(filepath.Join(unitDir, "stdout")); err == nil {
+			o.DiskOut = int(fi.Size())
+		}
+		if v.State == o.Final.State && v.Size == o.Final.Size && v.Detail == o.Final.Detail {
+			break
+		}
+		time.Sleep(400 * time.Millisecond) // the daemon's copy may be one reload behind
+		o.Final = query(a.Sock, o.Unit)
 	}
 	if o.Final.Listed || o.AtRestart.Listed {
 		wantOut := pattern[:sc.Plan.size()]
@@ -465,6 +526,9 @@ func crashPlan(sc scenario, hits []hit, daemonPid int, thorough bool) []crashSpe
 			out = append(out, cs)
 		}
 		out = append(out, crashSpec{Point: "kill", Phase: "running", After: 700 * time.Millisecond})
+		// the daemon alone dies right after it has launched the runner; the restart finds the record
+		// still Pending and a live runner behind it
+		out = append(out, crashSpec{Point: "submit.started", Hit: 1, Pause: true}, crashSpec{Point: "update.written", Hit: 4, Pause: true})
 	}
 	if !thorough {
 		// quick tier: a fixed sample of the enumerated points — every kind of step once, every
@@ -473,7 +537,8 @@ func crashPlan(sc scenario, hits []hit, daemonPid int, thorough bool) []crashSpe
 			"local-running": {"save.truncated:1", "alloc.saved:1", "submit.stdin-created:1", "update.truncated:1", "update.loaded:2",
 				"update.truncated:2", "update.written:2", "update.truncated:3", "update.truncated:4", "update.written:4", "submit.started:1",
 				"update.loaded:5", "update.truncated:5", "update.written:5", "kill@running",
-				"update.truncated:1@runner", "update.truncated:3@runner", "update.written:3@runner"},
+				"update.truncated:1@runner", "update.truncated:3@runner", "update.written:3@runner",
+				"submit.started:1@daemon+runner-held", "update.written:4@daemon+runner-held"},
 			"local-finished": {"update.truncated:5", "kill@finished"},
 			"remote-bound":   {"update.truncated:1", "update.truncated:3", "update.truncated:4", "update.written:4", "update.truncated:5", "update.written:5", "update.truncated:6", "update.written:6"},
 			"remote-unbound": {"update.truncated:3", "submit.started:1"},
